@@ -51,6 +51,17 @@ HUNIVERSES = {
 NRANDOMH = {'quick': 2000, 'thorough': 20000}
 HDEFECTS = ('H-cache-nonempty', 'H-double-damp')
 MAXREPLAYS = 40
+# run leg (constants of TimeStepRunMC.tla)
+RBASE = dict(NStates=3, MaxSteps=3, CVals='RC3', BH='RBH2', NDamps='{0, 2}',
+             OutSets='ROut2', Tfs='RTf1', Dt='RDtQuarter')
+RUNIVERSES = {
+    'quick': [dict(RBASE)],
+    'thorough': [dict(RBASE, OutSets='ROut4', Tfs='RTf2')],
+}
+NRANDOMR = {'quick': 3000, 'thorough': 30000}
+RDEFECTS = ('R-prev-dt-reused', 'R-ask-before-initial')
+RINPUT_KEYS = ('cfl', 'dt', 'ndamp', 'tf', 'outs', 'pfreq', 'maxsteps',
+               'states')
 DEFECTS = ('C19-hmin-starts-at-1', 'C19-empty-array-hmin',
            'C19-dt-adapt-ghost-only', 'C19-dt-adapt-no-particles')
 INPUT_KEYS = ('cfl', 'dt', 'fixed_h', 'late', 'arrays')
@@ -70,13 +81,14 @@ def write_cfg(path, b, invariants, emit, defects=()):
         fp.write('CHECK_DEADLOCK FALSE\n')
 
 
-def write_hcfg(path, b, emit, defects=()):
+def write_hcfg(path, b, emit, defects=(), dname='HDf'):
     with open(path, 'w') as fp:
         fp.write('SPECIFICATION Spec\nCONSTANTS\n')
         for k, v in b.items():
             named = isinstance(v, str) and not v.startswith('{')
             fp.write('  %s %s %s\n' % (k, '<-' if named else '=', v))
-        fp.write('  HDf = {%s}\n' % ', '.join('"%s"' % d for d in defects))
+        fp.write('  %s = {%s}\n' % (dname, ', '.join('"%s"' % d
+                                                     for d in defects)))
         fp.write('  Emit = %s\n' % ('TRUE' if emit else 'FALSE'))
         fp.write('INVARIANT Functional\nINVARIANT Documented\n'
                  'CHECK_DEADLOCK FALSE\n')
@@ -142,32 +154,39 @@ def design(chk):
     return cases, info
 
 
-def design_hist(chk):
-    """Design runs of the history leg (TimeStepHistMC.tla).  Returns the
-    histories printed by TLC and info for the evidence."""
+def design_hist(chk, leg='hist'):
+    """Design runs of the history leg (TimeStepHistMC.tla) or of the run leg
+    (TimeStepRunMC.tla).  Returns the histories / runs printed by TLC and
+    info for the evidence."""
     sc = chk.scratch
+    if leg == 'run':
+        universes, defects, module, dname, tag, pre = (
+            RUNIVERSES, RDEFECTS, 'TimeStepRunMC', 'RDf', 'RUN', 'ru')
+    else:
+        universes, defects, module, dname, tag, pre = (
+            HUNIVERSES, HDEFECTS, 'TimeStepHistMC', 'HDf', 'HIST', 'hu')
     hists = []
     info = dict(states=0, transitions=0, universes=[], sensitivity={})
-    for ui, b in enumerate(HUNIVERSES[chk.tier]):
+    for ui, b in enumerate(universes[chk.tier]):
         sens = []
-        for d in HDEFECTS:
-            c = os.path.join(sc, 'hsens-%d-%s.cfg' % (ui, d))
-            write_hcfg(c, b, False, defects=(d,))
+        for d in defects:
+            c = os.path.join(sc, '%ssens-%d-%s.cfg' % (pre, ui, d))
+            write_hcfg(c, b, False, defects=(d,), dname=dname)
             sens.append((d, c))
-        c1 = os.path.join(sc, 'hfull-%d.cfg' % ui)
-        write_hcfg(c1, b, True)
+        c1 = os.path.join(sc, '%sfull-%d.cfg' % (pre, ui))
+        write_hcfg(c1, b, True, dname=dname)
         with ThreadPoolExecutor(max_workers=3) as ex:
-            fs = [(d, ex.submit(run_tlc, c, 1, 'TimeStepHistMC'))
+            fs = [(d, ex.submit(run_tlc, c, 1, module))
                   for d, c in sens]
-            full = run_tlc(c1, 4, 'TimeStepHistMC')
+            full = run_tlc(c1, 4, module)
             found = [(d, f.result()) for d, f in fs]
         if not full['ok']:
             raise MachineryError(
-                'history design model: invariant %s violated\n%s' % (
-                    full['violation'], full['out'][-2500:]))
-        got = tlc.parse_prints(full['out'], 'HIST')
+                '%s design model: invariant %s violated\n%s' % (
+                    module, full['violation'], full['out'][-2500:]))
+        got = tlc.parse_prints(full['out'], tag)
         for i, h in enumerate(got):
-            h['id'] = 'hu%d-%d' % (ui, i)
+            h['id'] = '%s%d-%d' % (pre, ui, i)
         hists += got
         info['states'] += full['distinct']
         info['transitions'] += full['generated']
@@ -176,8 +195,8 @@ def design_hist(chk):
         for d, r in found:
             if r['violation'] != 'Documented':
                 raise MachineryError(
-                    'history universe %d is not sensitive to %s\n%s' % (
-                        ui, d, r['out'][-1500:]))
+                    '%s universe %d is not sensitive to %s\n%s' % (
+                        module, ui, d, r['out'][-1500:]))
             if d not in info['sensitivity']:
                 st = tlc.counterexample(r['out'])
                 info['sensitivity'][d] = (st[-1]['text'][:1500]
@@ -311,6 +330,69 @@ def random_history(rng, i):
                 ndamp=rng.choice([0, 1, 2, 3]), init=init, asks=asks)
 
 
+def random_run(rng, i):
+    """A random run: 1-3 arrays in random order (often one without
+    particles), fixed particle counts, a different state (h and criteria)
+    after the initial evaluation and after every step; all values dyadic so
+    that every time and step is an exact small rational."""
+    narr = rng.choice([1, 2, 2, 3, 3])
+    flags = []
+    for a in range(narr):
+        p = rng.choice([0.3, 0.6, 1.0])
+        flags.append(dict((k, rng.random() < p)
+                          for k in ('adapt', 'cfl', 'force', 'visc')))
+    if rng.random() < 0.6:
+        for f in flags:
+            f['adapt'] = False
+    squares = any(f['force'] for f in flags)
+    counts = [rng.choice([0, 1, 1, 2, 3]) for _ in range(narr)]
+    if narr > 1 and rng.random() < 0.6:
+        counts[rng.randrange(narr)] = 0
+    hset = [Fraction(1, 4), Fraction(1), Fraction(4)] if squares else \
+        [Fraction(1, 4), Fraction(1, 2), Fraction(1), Fraction(2),
+         Fraction(4)]
+    vals = dict(adapt=[Fraction(1, 16), Fraction(1, 8), Fraction(3, 16),
+                       Fraction(1, 4)],
+                cfl=[Fraction(1), Fraction(2), Fraction(4), Fraction(8),
+                     Fraction(16)],
+                visc=[Fraction(1), Fraction(2), Fraction(4), Fraction(16)],
+                force=[Fraction(1), Fraction(16), Fraction(256)])
+    nsteps = rng.choice([3, 4, 5, 6])
+    zero = rng.choice([0.0, 0.2, 0.5])
+    h0 = [[rng.choice(hset) for _ in range(n)] for n in counts]
+
+    def state(first):
+        arrs = []
+        for a, (has, n) in enumerate(zip(flags, counts)):
+            real = []
+            for j in range(n):
+                # the initial evaluation does not change h
+                h = h0[a][j] if first or rng.random() < 0.5 else \
+                    rng.choice(hset)
+                p = dict(h=fr(h))
+                for k in ('adapt', 'cfl', 'force', 'visc'):
+                    p[k] = fr(rng.choice(vals[k])
+                              if has[k] and rng.random() >= zero else 0)
+                real.append(p)
+            arrs.append(dict(has=has, real=real, ghost=[]))
+        return arrs
+
+    states = [state(True)] + [state(False) for _ in range(nsteps - 1)]
+    nouts = rng.choice([0, 1, 1, 2, 3])
+    outs = sorted(set(Fraction(rng.randint(1, 96), 64)
+                      for _ in range(nouts)))
+    tf = rng.choice([Fraction(16), Fraction(16), Fraction(rng.randint(4, 48),
+                                                          16)])
+    return dict(id='rr%d' % i,
+                cfl=fr(rng.choice([Fraction(1, 2), Fraction(1, 4),
+                                   Fraction(1)])),
+                dt=fr(rng.choice([Fraction(1, 4), Fraction(1, 2),
+                                  Fraction(1)])),
+                ndamp=rng.choice([0, 0, 1, 2, 3]), tf=fr(tf),
+                outs=[fr(x) for x in outs if x < tf],
+                pfreq=rng.choice([1, 2, 3]), maxsteps=nsteps, states=states)
+
+
 # -- real code ---------------------------------------------------------------
 def drive(chk, cases, tag, nproc=16, chunk=6000, seed_defect=None):
     """Run the real code over `cases` (driver subprocesses, <= chunk cases
@@ -375,7 +457,8 @@ def validate(chk, traces, tag, per_batch=6000):
     batches = []
     for t in traces:
         batch.append(t)
-        cost += len(t['asks']) + 1 if 'asks' in t else 1
+        cost += (len(t['asks']) + 1 if 'asks' in t else
+                 len(t['steps']) + 1 if 'steps' in t else 1)
         if cost >= per_batch:
             batches.append(batch)
             batch, cost = [], 0
@@ -400,6 +483,8 @@ def validate(chk, traces, tag, per_batch=6000):
 
 
 def inputs_of(t):
+    if 'states' in t:
+        return {k: t[k] for k in RINPUT_KEYS}
     if 'asks' in t:
         d = {k: t[k] for k in HINPUT_KEYS}
         d['asks'] = [{k: q[k] for k in ('ops', 'arrays', 'count')}
@@ -409,6 +494,8 @@ def inputs_of(t):
 
 
 def results_of(t):
+    if 'states' in t:
+        return 'integrator.step(t, dt) calls: %s' % json.dumps(t['steps'])
     if 'asks' in t:
         return json.dumps([[q['res'], q['kept'], q['step']]
                            for q in t['asks']])
@@ -433,7 +520,7 @@ def judge(chk, traces_by_id, verdicts):
             continue
         what = 'clauses %s fail%s: %s %s' % (
             sorted(v['failed']),
-            ' at ask %d of the history' % v['step'] if 'step' in v else '',
+            ' at ask/step %d' % v['step'] if 'step' in v else '',
             results_of(tr), tr.get('msg', ''))
         if v['explained'] and v['known'] and \
                 all(chk.known(k) for k in v['known']):
@@ -452,6 +539,8 @@ def judge(chk, traces_by_id, verdicts):
 def nontrivial(t):
     """Some criterion applies: a positive value of an optional property on a
     real particle (the answer is not trivially None)."""
+    if 'states' in t:
+        return any(nontrivial(dict(arrays=a)) for a in t['states'])
     if 'asks' in t:
         return any(nontrivial(q) for q in t['asks'])
     for a in t['arrays']:
@@ -468,8 +557,10 @@ def selftest(chk, cases):
     that nothing explains.  Writes no evidence and no replay."""
     seeds = [os.environ['C19_SEED_DEFECT']] if \
         os.environ.get('C19_SEED_DEFECT') else \
-        ['hmin1', 'cachenonempty', 'doubledamp']
-    sub = [c for i, c in enumerate(cases) if 'asks' in c or i % 5 == 0]
+        ['hmin1', 'cachenonempty', 'doubledamp', 'prevdt', 'askearly',
+         'breakempty']
+    sub = [c for i, c in enumerate(cases)
+           if 'asks' in c or 'states' in c or i % 5 == 0]
     for seed in seeds:
         traces = drive(chk, sub, 's-' + seed, seed_defect=seed)
         verdicts, st = validate(chk, traces, 'sv-' + seed)
@@ -503,9 +594,10 @@ def run():
 
 def check(chk):
     rng = random.Random(chk.seed)
-    info = hinfo = None
-    nuni = nhuni = nrand = 0
+    info = hinfo = rinfo = None
+    nuni = nhuni = nrand = nruni = 0
     hists = []
+    runs = []
     phase = {}
     t0 = time.time()
     if chk.args.replay:
@@ -514,16 +606,21 @@ def check(chk):
         c['id'] = obj.get('id', 'replay')
         cases = [c]
     else:
-        with ThreadPoolExecutor(max_workers=2) as ex:
+        with ThreadPoolExecutor(max_workers=3) as ex:
             fh = ex.submit(design_hist, chk)
+            fr_ = ex.submit(design_hist, chk, 'run')
             cases, info = design(chk)
             hists, hinfo = fh.result()
+            runs, rinfo = fr_.result()
+        nruni = len(runs)
+        runs += [random_run(rng, i) for i in range(NRANDOMR[chk.tier])]
         nuni = len(cases)
         nhuni = len(hists)
         cases += [random_case(rng, i) for i in range(NRANDOM[chk.tier])]
         nrand = len(cases) - nuni
         hists += [random_history(rng, i) for i in range(NRANDOMH[chk.tier])]
         cases += hists
+        cases += runs
     # only findings of status "known" may explain a failure (TraceTimeStep)
     known_ids = sorted(f['id'] for f in chk.findings
                        if f['status'] == 'known')
@@ -548,8 +645,16 @@ def check(chk):
     kinds = {}
     nasks = 0
     fallback_damped = 0
+    nsteps = ncutsteps = 0
     for t in traces:
-        if 'asks' in t:
+        if 'steps' in t:
+            nsteps += len(t['steps'])
+            outs = set(Fraction(*o) for o in t['outs'])
+            for q in t['steps'][1:]:
+                if Fraction(*q['t']) in outs:
+                    ncutsteps += 1      # the previous step ended on a
+                    #                     requested output time
+        elif 'asks' in t:
             nasks += len(t['asks'])
             for q in t['asks']:
                 kinds[q['res']['k']] = kinds.get(q['res']['k'], 0) + 1
@@ -560,7 +665,8 @@ def check(chk):
             kinds[t['res']['k']] = kinds.get(t['res']['k'], 0) + 1
         if nontrivial(t):
             keys.add(json.dumps(inputs_of(t), sort_keys=True))
-    singles = [t for t in traces if 'asks' not in t]
+    singles = [t for t in traces if 'asks' not in t and 'steps' not in t]
+    run_tr = [t for t in traces if 'steps' in t]
     hist_tr = [t for t in traces if 'asks' in t]
     samples = []
     smp = next((t for t in singles if nontrivial(t) and
@@ -573,16 +679,24 @@ def check(chk):
                 hist_tr[0] if hist_tr else None)
     if hsmp is not None:
         samples.append(dict(history=dict(hsmp), verdict=by_v[hsmp['id']]))
+    rsmp = next((t for t in run_tr if nontrivial(t) and t['outs'] and
+                 t['ndamp'] > 0), run_tr[0] if run_tr else None)
+    if rsmp is not None:
+        samples.append(dict(run=dict(rsmp), verdict=by_v[rsmp['id']]))
     bad = next((t for t in traces if by_v[t['id']]['v']['failed']), None)
     if bad is not None:
         samples.append(dict(inputs=inputs_of(bad), results=results_of(bad),
                             msg=bad['msg'], verdict=by_v[bad['id']]))
     info = info or dict(states=0, transitions=0)
     hinfo = hinfo or dict(states=0, transitions=0)
+    rinfo = rinfo or dict(states=0, transitions=0)
     chk.cov.update(dict(
-        states=(info['states'] + hinfo['states']) or st['distinct'],
-        transitions=(info['transitions'] + hinfo['transitions']) or
-        st['generated'],
+        states=(info['states'] + hinfo['states'] + rinfo['states']) or
+        st['distinct'],
+        transitions=(info['transitions'] + hinfo['transitions'] +
+                     rinfo['transitions']) or st['generated'],
+        run_design_model='TimeStepRunMC.tla; universes: %s' % json.dumps(
+            rinfo.get('universes', [])),
         design_model='TimeStepMC.tla; universes: %s; TimeStepHistMC.tla; '
                      'universes: %s' % (json.dumps(info.get('universes', [])),
                                         json.dumps(hinfo.get('universes',
@@ -592,13 +706,18 @@ def check(chk):
                       'each repaired defect re-introduced in the model TLC '
                       'finds a violating case (defect_sensitivity)',
         defect_sensitivity=dict(info.get('sensitivity', {}),
-                                **hinfo.get('sensitivity', {})),
+                                **dict(hinfo.get('sensitivity', {}),
+                                       **rinfo.get('sensitivity', {}))),
         known_ids_that_may_mask=known_ids,
         traces_validated_against_impl=len(verdicts),
         universe_cases=nuni,
         random_cases=nrand,
         universe_histories=nhuni,
         random_histories=len(hists) - nhuni,
+        universe_runs=nruni,
+        random_runs=len(runs) - nruni,
+        run_steps=nsteps,
+        run_steps_after_a_step_cut_for_an_output_time=ncutsteps,
         history_asks=nasks,
         asks_falling_back_while_damped=fallback_damped,
         evaluations=len(traces),
@@ -620,7 +739,13 @@ def check(chk):
              'Solver.solve() with changes of the arrays between the asks '
              '(universe histories printed by TLC, random ones generated); '
              'distinct by initial arrays, ops, n_damp, cfl, dt; non-trivial '
-             'when a criterion applies at some ask',
+             'when a criterion applies at some ask.  A run is one execution '
+             'of the real Solver.solve() (adaptive, n_damp, output_at_times, '
+             'pfreq, max_steps) with an integrator that leaves a scripted '
+             'state after the initial evaluation and after every step '
+             '(universe runs printed by TLC, random ones generated); '
+             'distinct by all those inputs; non-trivial when a criterion '
+             'applies in some state',
         exhaustive=True,
         samples=samples,
     ))
@@ -641,7 +766,16 @@ def check(chk):
         'initial_acceleration are replaced on the instance: step applies the '
         'changes to the real arrays, then nnps.update_domain(), '
         'nnps.update(); n_damp in 0..3 (damping factors exact rationals)',
+        'runs: real Solver.solve(); integrator.initial_acceleration and '
+        'integrator.step replaced on the instance by scripts writing the '
+        'states (the initial evaluation writes criteria only); all values '
+        'dyadic so times and steps are exact; what happens exactly when an '
+        'output time or tf lies inside a step is left to C10 (only dt <= '
+        'documented step is demanded there)',
     ]
+    if chk.cov.get('violations_without_replay_file'):
+        print('C19: %d further violations (no replay file written)' %
+              chk.cov['violations_without_replay_file'])
     chk.finish()
 
 
